@@ -50,7 +50,7 @@ BoolValue(s) == s \in {"true", "True", "yes", "on", "y", "Yes"}
 Cast(kind, text) ==
   CASE kind = "boolean" -> text \in BoolTexts
     [] kind = "integer" -> text \in {"0", "3", "42", "7"}
-    [] kind = "number"  -> text \in {"0", "3", "42", "7", "0.5", "1.5"}
+    [] kind = "number"  -> text \in {"0", "3", "42", "7", "0.5", "1.5", "0.3"}
 \* texts that are no value of the kind under any reading (cross-type texts such as "0.5" in an integer position that is a
 \* byte size are neither valid nor clearly invalid: not enforced)
 ClearlyInvalid(kind, text) ==
